@@ -241,10 +241,14 @@ def run_fit_image(image, geom_args, kwargs, script=None, minit=10, record_steps=
 # --------------------------------------------------------------------------
 # schedule cases
 # --------------------------------------------------------------------------
-def gen_sched(rng, allow_second=True):
+def gen_sched(rng, allow_second=True, geom_lin=None):
     """Parameters of one scripted fit_image run (control skeleton under an adversarial
-    oracle stream)."""
+    oracle stream).  `geom_lin`: geometry.linear_growth left by an earlier call on the same Ellipse (used
+    when this call passes linear=None)."""
+    lin_arg = rng.random() < 0.7
     lin = rng.random() < 0.4
+    if geom_lin is not None and not lin_arg:
+        lin = geom_lin
     if lin:
         step = rng.choice([0.5, 1.0, 1.5, 2.0, 0.7, 3.0])
     else:
@@ -317,15 +321,13 @@ def gen_sched(rng, allow_second=True):
         gmode = rng.choice(['ctor', 'attr'])
     p = dict(lin=lin, step=step, sma0=(sma0 if use_sma0 else rng.choice([None, 0.0])), gsma=gsma,
              minsma=minsma, maxsma=maxsma, maxrit=maxrit, stream=stream, fixes=fixes,
-             lin_arg=rng.random() < 0.7, gfix=gfix, gmode=gmode, second=None)
+             lin_arg=lin_arg, gfix=gfix, gmode=gmode, second=None)
     # a SECOND fit_image call on the same Ellipse object, with other arguments: its result must satisfy the
     # property on its own (nothing of the first call's list, schedule, minsma/maxsma may leak into it).  What
     # the first call documents to override "for good" (geometry.fix, geometry.linear_growth) is carried over.
     if allow_second and rng.random() < 0.3:
-        q = gen_sched(rng, allow_second=False)
+        q = gen_sched(rng, allow_second=False, geom_lin=lin)   # linear=None: growth mode as left by call 1
         q['gsma'] = gsma                                   # the same geometry object
-        if not q['lin_arg']:
-            q['lin'] = lin                                 # linear=None: geometry.linear_growth as left by call 1
         # (with all three keywords set the first call returns before it touches the geometry)
         carried = tuple(p.get('gfix') or NOFIX) if all(fixes) else eff_fixes(p)
         q['gfix'], q['gmode'] = (carried if any(carried) else None), ('carried-over' if any(carried) else None)
